@@ -381,6 +381,11 @@ func foreignResponse(idx int) *ir.Request {
 		{Name: "HTTPPing", Input: ".fr.api.v1.PingReq", Output: ".fr.api.v1.Receipt", Config: &ir.HTTPConfig{Path: "/ping", Method: "GET"},
 			Headers: []ir.Header{{Name: "X-Probe", Type: "string", Required: true}}},
 	}})
+	// two DIFFERENT header names from which the Go client derives ONE helper name (a leading `X-` and the hyphens are
+	// dropped): a deprecated `X-…` spelling next to the plain one, on the service and on a method
+	api.Services[len(api.Services)-1].Headers = []ir.Header{{Name: "X-Request-ID", Type: "string", Required: true}, {Name: "Request-ID", Type: "string"},
+		{Name: "X-Trace-Id", Type: "string"}}
+	api.Services[len(api.Services)-1].Methods[1].Headers = []ir.Header{{Name: "Trace-Id", Type: "string"}, {Name: "X-Idempotency-Key", Type: "string"}, {Name: "Idempotency-Key", Type: "string"}}
 	return &ir.Request{Files: []*ir.File{models, api}, Generate: []string{api.Name}}
 }
 
